@@ -2,7 +2,7 @@
 from .. import sexp, parsegen, spangen, lexsim, peg
 from .gbase import GProp, pfields, mk_case, run_result
 from .C02 import gen_list
-from . import C12 as c12mod
+from . import C12 as c12mod, C07 as c07mod
 
 def strip_tags(e):
     while isinstance(e, list) and e and e[0] == 'tagged':
@@ -13,8 +13,32 @@ def gen_committed(r, depth=2):
     """recovering combinators only in committed positions: sequences and bracket/list bodies"""
     parts = []
     for _ in range(1 + r.below(3)):
-        k = r.below(9)
-        if k < 2: parts.append(parsegen.gen_c06(r, 1 + r.below(4)))
+        k = r.below(12)
+        if k == 9:
+            # the C07 family (its bodies, separators and stop parsers are speculative positions: no recovering combinator there)
+            parts.append(c07mod.gen_rep(r, 1 + r.below(2)))
+        elif k == 10 and depth > 0:
+            # other committed positions: the right side of either / implies, under map / discard / sub / spanned / text / ctxpush /
+            # raw / reqif T / cond T
+            inner = gen_committed(r, depth - 1)
+            w = r.below(10)
+            if w == 0: parts.append(['either', ['seq', 'C', 'C'], inner])
+            elif w == 1: parts.append([r.choice(['implies', 'consequent']), ['one', 'C'], inner])
+            elif w == 2: parts.append([r.choice(['map', 'ctxpush']), 1 + r.below(8), inner])
+            elif w == 3: parts.append(['discard', inner])
+            elif w == 4: parts.append(['sub', inner])
+            elif w == 5: parts.append([r.choice(['spanned', 'text']), inner])
+            elif w == 6: parts.append(['raw', inner])
+            elif w == 7: parts.append(['reqif', 'T', inner])
+            elif w == 8: parts.append(['cond', 'T', inner])
+            else: parts.append(['center', ['maybe', ['one', 'C']], inner, ['maybe', ['one', 'Semi']]])
+        elif k == 11:
+            # nested recovering combinators with different strategies; stabilize around a sequence with a recovery in it
+            inner = [r.choice(c12mod.RCOMB), c12mod.gen_rs(r), r.choice([['one', 'A'], ['seq', 'A', 'B']])]
+            parts.append(r.choice([[r.choice(c12mod.RCOMB), c12mod.gen_rs(r), ['both', inner, ['one', 'B']]],
+                                   ['stabilize', ['both', inner, ['maybe', ['one', 'B']]]],
+                                   ['stabilize', gen_list(r)]]))
+        elif k < 2: parts.append(parsegen.gen_c06(r, 1 + r.below(4)))
         elif k == 2:
             body = r.choice([['one', 'A'], ['seq', 'A', 'B']])
             if r.chance(1, 3):
@@ -114,7 +138,7 @@ class C08(GProp):
             def fail(msg):
                 fails.append({'kind': 'oracle', 'case': ca, 'detail': {'what': msg, 'nosink': a[:300], 'sink': b[:300]}})
             if ka == 'ok':
-                if kb != 'ok' or va != vb or la['rest'] != lb['rest'] or la['cur'] != lb['cur']:
+                if kb != 'ok' or va != vb or la != lb:          # the whole returned lexer: cursor, spans, filter, recover state, stream
                     fail('the sink-less parse succeeds with %s (rest [%s]) but with a sink the result is %s' % (sexp.dump(va)[:100], ' '.join(la['rest']), b[:160]))
                 elif sink_b:
                     fail('the sink-less parse succeeds but with a sink %d errors were reported' % len(sink_b))
